@@ -115,10 +115,10 @@ def gen_model(rng, tag: str) -> tuple[dict, str, list[str]]:  # noqa: ANN001
     src = ['"""generated"""', "import math", "import numpy as np", "", "", "def helper(a):", "    return a * 2.0", "", ""]
     fn_i = [0]
 
-    def new_fn(nargs: int, kind: str = "expr") -> str:
+    def new_fn(nargs: int, kind: str = "expr", own: list[str] | None = None) -> str:
         name = f"fn{fn_i[0]}"
         fn_i[0] += 1
-        params = [f"p{i}" for i in range(nargs)]
+        params = own if own is not None else [f"p{i}" for i in range(nargs)]
         if kind == "expr":
             body = [f"    return {eg.expr(params, 2) if params else '1.5'}"]
         elif kind == "nested_call":
@@ -192,7 +192,15 @@ def gen_model(rng, tag: str) -> tuple[dict, str, list[str]]:  # noqa: ANN001
                 st[v] = {"fn": f"{mod}:{name}", "args": [rng.choice(params)]}
                 eg.feats.add(f"computed_coefficient({sign})")
                 del params_
-        comps.append({"kind": "reaction", "name": mk(f"v{j}"), "fn": new_fn(nargs, kind), "args": args, "stoich": st})
+        own = None
+        if len(set(args)) == len(args) >= 2 and all(a.isidentifier() and a not in HOSTILE_NAMES for a in args) and rng.random() < 0.4:
+            # the function is written in the model's own names, and wired to them in another order
+            own = args[1:] + args[:1] if rng.random() < 0.5 else args[::-1]
+            if own != args:
+                eg.feats.add("function_parameters_are_the_model_names_in_another_order")
+            else:
+                own = None
+        comps.append({"kind": "reaction", "name": mk(f"v{j}"), "fn": new_fn(nargs, kind, own), "args": args, "stoich": st})
     return {"components": comps}, "\n".join(src), sorted(eg.feats)
 
 
